@@ -452,6 +452,14 @@ Proof.
   eexists; eexists; reflexivity.
 Qed.
 
+Lemma h_at_inv inv d r R nf c : sub r = Some (R, nf) -> bytes_ok (rest c) -> Inv Eps false c (h_at ev inv d r c).
+Proof.
+  intros Er Hb. unfold h_at, look.
+  pose proof (Hev (set_A (opt_ d) false) r c R nf Er Hb) as H1.
+  destruct (ev (set_A (opt_ d) false) r c) as [[| |e] c1 evs| |]; simpl in H1; destruct inv; simpl;
+    try reflexivity; try exact H1; try exact I; exists []; (split; [reflexivity | constructor]).
+Qed.
+
 (* ---------- atoms ---------- *)
 Lemma class_checked_spec cs t : class_checked cs t = true -> forall b, b < 256 -> t (schar b) = cs_mem b cs.
 Proof.
@@ -529,6 +537,12 @@ Proof.
     + (* partial *) destruct (nsubs nd) as [|r1 [|? ?]]; try discriminate.
       destruct (sub r1) as [[R1 nf1]|] eqn:E1; [|discriminate]. simpl in Hs. inversion Hs; subst.
       eapply h_partial_inv; eauto.
+    + (* at *) destruct (nsubs nd) as [|r1 [|? ?]]; try discriminate.
+      destruct (sub r1) as [[R1 nf1]|] eqn:E1; [|discriminate]. simpl in Hs. inversion Hs; subst.
+      eapply h_at_inv; eauto.
+    + (* not_at *) destruct (nsubs nd) as [|r1 [|? ?]]; try discriminate.
+      destruct (sub r1) as [[R1 nf1]|] eqn:E1; [|discriminate]. simpl in Hs. inversion Hs; subst.
+      eapply h_at_inv; eauto.
     + (* rep *) destruct (nsubs nd) as [|r1 [|? ?]]; try discriminate.
       destruct (sub r1) as [[R1 nf1]|] eqn:E1; [|discriminate]. simpl in Hs. inversion Hs; subst.
       unfold h_rep. apply Inv_guard. eapply rep_loop_inv; eauto.
@@ -779,3 +793,258 @@ Proof.
   - exact R.
   - intros A. exact (accepts_not_rejects _ _ A R).
 Qed.
+
+(* ================================================================== Part 5: IPv4address is exact *)
+
+(* ---------- RFC dec-octet strings are the canonical numerals <= 255 (converse of numeral_dec_octet) ---------- *)
+Definition r_oct : re := Rfc3986.dec_octet.
+Definition dead (r : re) : bool := is_empty r.
+Lemma dead_step r x w : dead (deriv x r) = true -> ~ matches r (x :: w).
+Proof.
+  unfold dead. intros H M. apply deriv_iff in M. destruct (deriv x r); try discriminate. eapply empty_inv; eauto.
+Qed.
+
+Lemma oct_sweep1 : forallb (fun a => sdigit a || dead (deriv a r_oct)) all_bytes = true.
+Proof. vm_compute. reflexivity. Qed.
+Lemma oct_sweep2 : forallb (fun a => forallb (fun b => sdigit b || dead (derivs r_oct [a; b])) all_bytes) dig09 = true.
+Proof. vm_compute. reflexivity. Qed.
+Lemma oct_sweep3 : forallb (fun a => forallb (fun b => forallb (fun c => sdigit c || dead (derivs r_oct [a; b; c])) all_bytes) dig09) dig09 = true.
+Proof. vm_compute. reflexivity. Qed.
+Lemma oct_sweep4 : forallb (fun a => forallb (fun b => forallb (fun c => forallb (fun x => dead (derivs r_oct [a; b; c; x])) all_bytes) dig09) dig09) dig09 = true.
+Proof. vm_compute. reflexivity. Qed.
+Definition oct_conv (l : list N) : bool := implb (re_match r_oct l) (numeral_b l && (unsigned_value l <=? 255)%Z).
+Lemma oct_sweep5 : forallb (fun a => oct_conv [a] && forallb (fun b => oct_conv [a; b] && forallb (fun c => oct_conv [a; b; c]) dig09) dig09) dig09 = true.
+Proof. vm_compute. reflexivity. Qed.
+
+Lemma sdigit_dig09 b : sdigit b = true -> In b dig09.
+Proof. intros H. apply dig09_in. apply IntegerFacts.sdigit_iff. exact H. Qed.
+
+Lemma dec_octet_numeral w : bytes_ok w -> matches Rfc3986.dec_octet w ->
+  unsigned_numeral w /\ (unsigned_value w <= 255)%Z.
+Proof.
+  intros Hb M. fold r_oct in M.
+  assert (Conv : forall l, oct_conv l = true -> matches r_oct l -> unsigned_numeral l /\ (unsigned_value l <= 255)%Z).
+  { intros l Hc Hm. apply re_match_correct in Hm. unfold oct_conv in Hc. rewrite Hm in Hc. simpl in Hc.
+    apply andb_true_iff in Hc. destruct Hc as [H1 H2]. split; [apply IntegerFacts.numeral_b_iff; exact H1 | apply Z.leb_le; exact H2]. }
+  destruct w as [|a w].
+  { exfalso. apply re_match_correct in M. vm_compute in M. discriminate. }
+  inversion Hb as [|? ? Ha Hb1]; subst.
+  pose proof oct_sweep1 as S1. rewrite forallb_forall in S1. specialize (S1 a (all_bytes_in a Ha)).
+  apply orb_true_iff in S1. destruct S1 as [Da|Da]; [|exfalso; exact (dead_step _ _ _ Da M)].
+  pose proof (sdigit_dig09 a Da) as Ia.
+  pose proof oct_sweep5 as S5. rewrite forallb_forall in S5. specialize (S5 a Ia). apply andb_true_iff in S5. destruct S5 as [C1 S5].
+  destruct w as [|b w]; [apply Conv; assumption|].
+  inversion Hb1 as [|? ? Hb' Hb2]; subst.
+  pose proof oct_sweep2 as S2. rewrite forallb_forall in S2. specialize (S2 a Ia). rewrite forallb_forall in S2.
+  specialize (S2 b (all_bytes_in b Hb')). apply orb_true_iff in S2. destruct S2 as [Db|Db].
+  2:{ exfalso. apply deriv_iff in M. exact (dead_step _ _ _ Db M). }
+  pose proof (sdigit_dig09 b Db) as Ib.
+  rewrite forallb_forall in S5. specialize (S5 b Ib). apply andb_true_iff in S5. destruct S5 as [C2 S5].
+  destruct w as [|c w]; [apply Conv; assumption|].
+  inversion Hb2 as [|? ? Hc' Hb3]; subst.
+  pose proof oct_sweep3 as S3. rewrite forallb_forall in S3. specialize (S3 a Ia). rewrite forallb_forall in S3.
+  specialize (S3 b Ib). rewrite forallb_forall in S3. specialize (S3 c (all_bytes_in c Hc')).
+  apply orb_true_iff in S3. destruct S3 as [Dc|Dc].
+  2:{ exfalso. apply deriv_iff in M. apply deriv_iff in M. exact (dead_step _ _ _ Dc M). }
+  pose proof (sdigit_dig09 c Dc) as Ic.
+  rewrite forallb_forall in S5. specialize (S5 c Ic).
+  destruct w as [|x w]; [apply Conv; assumption|].
+  exfalso. inversion Hb3 as [|? ? Hx' Hb4]; subst.
+  pose proof oct_sweep4 as S4. rewrite forallb_forall in S4. specialize (S4 a Ia). rewrite forallb_forall in S4.
+  specialize (S4 b Ib). rewrite forallb_forall in S4. specialize (S4 c Ic). rewrite forallb_forall in S4.
+  specialize (S4 x (all_bytes_in x Hx')).
+  apply deriv_iff in M. apply deriv_iff in M. apply deriv_iff in M. exact (dead_step _ _ _ S4 M).
+Qed.
+
+(* ---------- forward evaluation ---------- *)
+Lemma match_hpp_fwd (body : dyn -> cursor -> result) d r c c' evs :
+  body d c = Res Ok c' evs -> exists evs', match_hpp C0 AKNone body d r c = Res Ok c' evs'.
+Proof.
+  intros H. unfold match_hpp. assert (Eg : use_guard d AKNone = false) by (unfold use_guard; apply andb_false_r). rewrite Eg.
+  rewrite H. unfold run_action. destruct (dA d); eexists; reflexivity.
+Qed.
+
+Section Forward.
+Variable G : grammar.
+Variable MX : rid -> option (nat * N).
+
+(* r takes c to c' (for every mode) with fuel f *)
+Definition steps (f : nat) (r : rid) (c c' : cursor) : Prop :=
+  forall d, exists evs, evalx G C0 MX f d r c = Res Ok c' evs.
+
+Lemma steps_mono f1 f2 r c c' : (f1 <= f2)%nat -> steps f1 r c c' -> steps f2 r c c'.
+Proof. intros L H d. destruct (H d) as [evs E]. exists evs. eapply evalx_mono_res; eauto. Qed.
+
+Lemma fwd_plain f r nd c c' : nth_error G r = Some nd -> MX r = None ->
+  (forall d, exists evs, eval_head C0 (evalx G C0 MX f) f r (nhead nd) (nsubs nd) d c = Res Ok c' evs) ->
+  steps (S f) r c c'.
+Proof.
+  intros En Em H d. cbn [evalx]. rewrite En, Em. change (acts C0 (dAct d) r) with AKNone. cbv iota.
+  destruct (H d) as [evs E].
+  destruct (nenabled nd).
+  - destruct (match_hpp_fwd _ d r c c' evs E) as [e2 E2]. rewrite E2. eexists; reflexivity.
+  - rewrite E. eexists; reflexivity.
+Qed.
+
+Lemma fwd_mx f r nd w mx c c' : nth_error G r = Some nd -> MX r = Some (w, mx) ->
+  maximum_rule w mx c tt = MOk c' tt -> steps (S f) r c c'.
+Proof.
+  intros En Em H d. cbn [evalx]. rewrite En, Em. change (acts C0 (dAct d) r) with AKNone. cbv iota.
+  assert (E : (fun (_ : dyn) (c0 : cursor) => mx_result (maximum_rule w mx c0 tt)) d c = Res Ok c' []) by (cbv beta; rewrite H; reflexivity).
+  destruct (nenabled nd).
+  - destruct (match_hpp_fwd _ d r c c' [] E) as [e2 E2]. rewrite E2. eexists; reflexivity.
+  - cbv beta. rewrite H. eexists; reflexivity.
+Qed.
+
+Inductive chain (f : nat) : list rid -> cursor -> cursor -> Prop :=
+| ch_nil c : chain f [] c c
+| ch_cons r rs c c1 c2 : steps f r c c1 -> chain f rs c1 c2 -> chain f (r :: rs) c c2.
+
+Lemma seq_all_chain f d rs : forall c c', chain f rs c c' -> exists evs, seq_all (evalx G C0 MX f) d rs c = Res Ok c' evs.
+Proof.
+  induction rs as [|r rs IH]; intros c c' H; inversion H; subst; cbn [seq_all].
+  - eexists; reflexivity.
+  - match goal with S : steps f r c ?c1, K : chain f rs ?c1 c' |- _ => destruct (S d) as [e1 E1]; destruct (IH _ _ K) as [e2 E2]; rewrite E1; simpl; rewrite E2 end.
+    eexists; reflexivity.
+Qed.
+
+Lemma fwd_seq f r en rs c c' : nth_error G r = Some (mknode HSeq rs en) -> MX r = None ->
+  (2 <= length rs)%nat -> chain f rs c c' -> steps (S f) r c c'.
+Proof.
+  intros En Em Hl Hc. eapply fwd_plain; eauto. intros d. cbn [nhead nsubs]. unfold eval_head. cbn [eval_atom]. unfold h_seq.
+  destruct (seq_all_chain f (opt_ d) rs c c' Hc) as [evs E].
+  destruct rs as [|r1 [|r2 rs']]; simpl in Hl; try lia. rewrite E. eexists; reflexivity.
+Qed.
+
+Lemma fwd_eof f r en c : nth_error G r = Some (mknode HEof [] en) -> MX r = None -> rest c = [] -> steps (S f) r c c.
+Proof.
+  intros En Em Hr. eapply fwd_plain; eauto. intros d. cbn [nhead nsubs]. unfold eval_head. cbn [eval_atom].
+  unfold in_empty. rewrite Hr. eexists; reflexivity.
+Qed.
+
+Lemma fwd_dot f r en c tl : nth_error G r = Some (mknode (HOne true PkChar [46%Z]) [] en) -> MX r = None ->
+  rest c = 46 :: tl -> exists c', steps (S f) r c c' /\ rest c' = tl.
+Proof.
+  intros En Em Hr. destruct c as [rs p]. simpl in Hr. subst rs.
+  eexists. split.
+  - eapply fwd_plain; eauto. intros d. cbn [nhead nsubs]. unfold eval_head. cbn [eval_atom]. vm_compute. eexists; reflexivity.
+  - reflexivity.
+Qed.
+
+Lemma fwd_oct f r nd c w tl : nth_error G r = Some nd -> MX r = Some (8%nat, 255) ->
+  rest c = w ++ tl -> bytes_ok (rest c) -> matches Rfc3986.dec_octet w -> no_digit_follows tl ->
+  exists c', steps (S f) r c c' /\ rest c' = tl.
+Proof.
+  intros En Em Hr Hb Mw Hnd.
+  assert (Hbw : bytes_ok w) by (rewrite Hr in Hb; unfold bytes_ok in *; rewrite Forall_app in Hb; tauto).
+  destruct (dec_octet_numeral w Hbw Mw) as [Hn Hv].
+  assert (Hw : (4 <= 8)%nat) by lia. assert (HM : 255 < pow2 8) by (vm_compute; reflexivity).
+  destruct (IntegerFacts.maximum_rule_syntax_exact unit 8 255 c tt Hw HM Hb) as [K _].
+  assert (Lx : unsigned_lexeme (rest c) (length w)) by (exists w, tl; auto).
+  destruct (K (length w) Lx) as [K1 _]. cbv zeta in K1.
+  rewrite Hr, IntegerFacts.firstn_app_exact in K1. change (Z.of_N 255) with 255%Z in K1.
+  destruct (K1 Hv) as [c' [Hbump Hmax]]. exists c'. split; [eapply fwd_mx; eauto|].
+  apply IntegerFacts.bump_some_advance in Hbump. destruct Hbump as [-> _]. simpl. rewrite Hr.
+  rewrite skipn_app, skipn_all, Nat.sub_diag. reflexivity.
+Qed.
+End Forward.
+
+(* ---------- the IPv4address rule of the generated table ---------- *)
+(* root = seq< IPv4address, eof >, IPv4address = seq< o, d, o, d, o, d, o > with o the maximum_rule leaf and d = one< '.' > *)
+Definition ipv4_shape : option (rid * rid * rid * rid) :=
+  match root_shape TIPv4address with
+  | Some (x, e) =>
+      match nth_error uri_table x with
+      | Some (mknode HSeq [o1; d1; o2; d2; o3; d3; o4] _) =>
+          if Nat.eqb o1 o2 && Nat.eqb o1 o3 && Nat.eqb o1 o4 && Nat.eqb d1 d2 && Nat.eqb d1 d3 then
+            match nth_error uri_table d1, nth_error uri_table o1 with
+            | Some (mknode (HOne true PkChar [z]) [] _), Some _ =>
+                match uri_mx (uri_root TIPv4address), uri_mx x, uri_mx e, uri_mx d1, uri_mx o1 with
+                | None, None, None, None, Some (w, mx) =>
+                    if (z =? 46)%Z && Nat.eqb w 8 && (mx =? 255) then Some (x, e, o1, d1) else None
+                | _, _, _, _, _ => None
+                end
+            | _, _ => None
+            end
+          else None
+      | _ => None
+      end
+  | None => None
+  end.
+
+Lemma dot_inv s : matches (lit 46) s -> s = [46].
+Proof.
+  intros H. apply chr_inv in H. destruct H as [b [-> Hm]]. unfold cs_mem, in_range in Hm. simpl in Hm.
+  rewrite orb_false_r in Hm. apply andb_true_iff in Hm. destruct Hm as [H1 H2].
+  apply N.leb_le in H1. apply N.leb_le in H2. f_equal. lia.
+Qed.
+
+Lemma complete_IPv4_of_shape : is_some ipv4_shape = true ->
+  forall s, bytes_ok s -> matches (rfc TIPv4address) s -> uri_accepts TIPv4address s.
+Proof.
+  unfold ipv4_shape, root_shape. intros Hc s Hs M.
+  destruct (nth_error uri_table (uri_root TIPv4address)) as [[h subs en1]|] eqn:Er; [|discriminate].
+  destruct h; try discriminate. destruct subs as [|x [|e [|? ?]]]; try discriminate.
+  destruct (nth_error uri_table e) as [[h2 subs2 en2]|] eqn:Ee; [|discriminate].
+  destruct h2; try discriminate. destruct subs2; try discriminate.
+  destruct (nth_error uri_table x) as [[h3 subs3 en3]|] eqn:Ex; [|discriminate].
+  destruct h3; try discriminate.
+  destruct subs3 as [|o1 [|d1 [|o2 [|d2 [|o3 [|d3 [|o4 [|? ?]]]]]]]]; try discriminate.
+  destruct (Nat.eqb o1 o2 && Nat.eqb o1 o3 && Nat.eqb o1 o4 && Nat.eqb d1 d2 && Nat.eqb d1 d3) eqn:Eq; [|discriminate].
+  rewrite !andb_true_iff in Eq. destruct Eq as [[[[Q1 Q2] Q3] Q4] Q5].
+  apply Nat.eqb_eq in Q1, Q2, Q3, Q4, Q5. subst o2 o3 o4 d2 d3.
+  destruct (nth_error uri_table d1) as [[hd sd end_]|] eqn:Ed; [|discriminate].
+  destruct hd; try discriminate. destruct found; try discriminate. destruct pk; try discriminate.
+  destruct cs as [|z [|? ?]]; try discriminate.
+  destruct sd; try discriminate.
+  destruct (nth_error uri_table o1) as [ndo|] eqn:Eo; [|discriminate].
+  destruct (uri_mx (uri_root TIPv4address)) eqn:M0; [discriminate|].
+  destruct (uri_mx x) eqn:M1; [discriminate|].
+  destruct (uri_mx e) eqn:M2; [discriminate|].
+  destruct (uri_mx d1) eqn:M3; [discriminate|].
+  destruct (uri_mx o1) as [[w mx]|] eqn:M4; [|discriminate].
+  destruct ((z =? 46)%Z && Nat.eqb w 8 && (mx =? 255)) eqn:Ew; [|discriminate].
+  rewrite !andb_true_iff in Ew. destruct Ew as [[Ez Ew1] Ew2].
+  apply Z.eqb_eq in Ez. apply Nat.eqb_eq in Ew1. apply N.eqb_eq in Ew2. subst z w mx. clear Hc.
+  (* decompose the RFC string *)
+  unfold rfc, Rfc3986.IPv4address in M. cbn [cats] in M.
+  apply cat_inv in M. destruct M as [w1 [r1 [-> [W1 M]]]].
+  apply cat_inv in M. destruct M as [p1 [r2 [-> [P1 M]]]]. apply dot_inv in P1. subst p1.
+  apply cat_inv in M. destruct M as [w2 [r3 [-> [W2 M]]]].
+  apply cat_inv in M. destruct M as [p2 [r4 [-> [P2 M]]]]. apply dot_inv in P2. subst p2.
+  apply cat_inv in M. destruct M as [w3 [r5 [-> [W3 M]]]].
+  apply cat_inv in M. destruct M as [p3 [w4 [-> [P3 W4]]]]. apply dot_inv in P3. subst p3.
+  set (c0 := mkcur (w1 ++ [46] ++ w2 ++ [46] ++ w3 ++ [46] ++ w4) pos0).
+  assert (ND : forall tl, no_digit_follows (46 :: tl)) by (intros tl; simpl; unfold isdigit; lia).
+  assert (Suf : forall c pre, rest c0 = pre ++ rest c -> bytes_ok (rest c)).
+  { intros c pre E. assert (Hs0 : bytes_ok (rest c0)) by exact Hs. rewrite E in Hs0. eapply bytes_ok_app_r; eauto. }
+  destruct (fwd_oct uri_table uri_mx 0 o1 ndo c0 w1 _ Eo M4 eq_refl Hs W1 (ND _)) as [c1 [S1 R1]].
+  destruct (fwd_dot uri_table uri_mx 0 d1 end_ c1 _ Ed M3 R1) as [c2 [S2 R2]].
+  assert (B2 : bytes_ok (rest c2)) by (apply (Suf c2 (w1 ++ [46])); rewrite R2, <- app_assoc; reflexivity).
+  destruct (fwd_oct uri_table uri_mx 0 o1 ndo c2 w2 _ Eo M4 R2 B2 W2 (ND _)) as [c3 [S3 R3]].
+  destruct (fwd_dot uri_table uri_mx 0 d1 end_ c3 _ Ed M3 R3) as [c4 [S4 R4]].
+  assert (B4 : bytes_ok (rest c4)) by (apply (Suf c4 (w1 ++ [46] ++ w2 ++ [46])); rewrite R4, <- !app_assoc; reflexivity).
+  destruct (fwd_oct uri_table uri_mx 0 o1 ndo c4 w3 _ Eo M4 R4 B4 W3 (ND _)) as [c5 [S5 R5]].
+  destruct (fwd_dot uri_table uri_mx 0 d1 end_ c5 _ Ed M3 R5) as [c6 [S6 R6]].
+  assert (B6 : bytes_ok (rest c6)) by (apply (Suf c6 (w1 ++ [46] ++ w2 ++ [46] ++ w3 ++ [46])); rewrite R6, <- !app_assoc; reflexivity).
+  assert (R6' : rest c6 = w4 ++ []) by (rewrite app_nil_r; exact R6).
+  destruct (fwd_oct uri_table uri_mx 0 o1 ndo c6 w4 [] Eo M4 R6' B6 W4 I) as [c7 [S7 R7]].
+  assert (Sx : steps uri_table uri_mx 2 x c0 c7).
+  { apply (fwd_seq uri_table uri_mx 1 x en3 [o1; d1; o1; d1; o1; d1; o1] c0 c7 Ex M1); [simpl; lia|].
+    eapply ch_cons; [exact S1|]. eapply ch_cons; [exact S2|]. eapply ch_cons; [exact S3|]. eapply ch_cons; [exact S4|].
+    eapply ch_cons; [exact S5|]. eapply ch_cons; [exact S6|]. eapply ch_cons; [exact S7|]. apply ch_nil. }
+  assert (Se : steps uri_table uri_mx 2 e c7 c7) by (exact (fwd_eof uri_table uri_mx 1 e en2 c7 Ee M2 R7)).
+  assert (Sr : steps uri_table uri_mx 3 (uri_root TIPv4address) c0 c7).
+  { apply (fwd_seq uri_table uri_mx 2 (uri_root TIPv4address) en1 [x; e] c0 c7 Er M0); [simpl; lia|].
+    eapply ch_cons; [exact Sx|]. eapply ch_cons; [exact Se|]. apply ch_nil. }
+  destruct (Sr d0) as [evs E]. exists 3%nat, c7, evs. exact E.
+Qed.
+
+Lemma ipv4_shape_ok : is_some ipv4_shape = true.
+Proof. vm_compute. reflexivity. Qed.
+
+Lemma complete_IPv4address : forall s, bytes_ok s -> matches (rfc TIPv4address) s -> uri_accepts TIPv4address s.
+Proof. exact (complete_IPv4_of_shape ipv4_shape_ok). Qed.
+
+Lemma exact_IPv4address : forall s, bytes_ok s -> (uri_accepts TIPv4address s <-> matches (rfc TIPv4address) s).
+Proof. intros s Hs. split; [apply sound_IPv4address; exact Hs | apply complete_IPv4address; exact Hs]. Qed.
